@@ -1,1 +1,665 @@
-fn main() {}
+//! C06 — SAM text records and headers round-trip, the text is a fixed point of noodles' own output,
+//! and SAM and BAM carry the same content (records and headers), also through conversions in both
+//! directions.
+//!
+//! E1, k-deviation over the record grammar of `gsam::gen` (C05's grammar restricted to what SAM text
+//! can carry, plus SAM-only shapes) and over the header grammar of `gsam::hgen`.
+//!
+//! Oracles: the input model value (integer tags numerically, as the statement says), an independent
+//! naive SAM text parser (`gsam::samtext`), byte equality of the second write, the BAM rendering of
+//! the same data decoded by noodles' BAM reader and by the independent raw BAM parser.
+
+use gsam::{
+    Expect, GHeader, GRec,
+    conv::{build_header_api, build_record, dedup_aux, parse_header_text, view_buf, view_header, view_lazy},
+    r#gen::{Alphabet, Base, bases, gen_record, neighbours},
+    hgen::{HeaderShape, expect_header, gen_header},
+    io::{Container, read_bam_eager, read_bam_lazy, read_sam_eager, read_sam_lazy, std_gheader, std_header, write_bam, write_sam},
+    model::{diff, diff_header, esc_full},
+    rawbam, samtext,
+    spec::{expect_bam, expect_sam, norm_bam, norm_both, norm_sam},
+};
+use noodles_sam::{self as sam, alignment::RecordBuf};
+use vmc::{Chooser, Config, Outcome, Violation};
+
+struct Cfg {
+    alphabet: Alphabet,
+    bases: Vec<Base>,
+    n_ref: usize,
+    header: sam::Header,
+    /// number of records in the file: free (thorough) or one deviation (quick)
+    nrec_free: bool,
+}
+
+fn shape_of(g: &GRec) -> &'static str {
+    if g.cigar.len() > 65535 {
+        "ops>65535"
+    } else if g.cigar.len() == 65535 {
+        "ops=65535"
+    } else {
+        "small"
+    }
+}
+
+trait ErrText {
+    fn text(&self) -> String;
+}
+impl ErrText for std::io::Error {
+    fn text(&self) -> String {
+        self.to_string()
+    }
+}
+impl ErrText for gsam::io::WriteErr {
+    fn text(&self) -> String {
+        format!("{}: {}", self.step, self.err)
+    }
+}
+
+/// Class-level rendering of an error message for fingerprints (digits collapsed, no spaces).
+fn err_class(msg: &str) -> String {
+    let m = msg.rsplit(": ").next().unwrap_or(msg);
+    vmc::normalise_msg(m).replace('=', "~")
+}
+
+fn dyn_recs(v: &[RecordBuf]) -> Vec<&dyn sam::alignment::Record> {
+    v.iter().map(|r| r as &dyn sam::alignment::Record).collect()
+}
+
+/// Compares two decoded record lists under a normalisation; returns (index, field, left, right).
+fn diff_lists(a: &[GRec], b: &[GRec], norm: fn(&GRec) -> GRec) -> Option<(String, String, String)> {
+    if a.len() != b.len() {
+        return Some(("record-count".into(), a.len().to_string(), b.len().to_string()));
+    }
+    for (x, y) in a.iter().zip(b) {
+        if let Some(d) = diff(&norm(x), &norm(y)) {
+            return Some(d);
+        }
+    }
+    None
+}
+
+fn record_body(ch: &Chooser, cfg: &Cfg) -> Outcome {
+    let base = ch.pick_free("base", &cfg.bases);
+    let three = if cfg.nrec_free { *ch.pick_free("records", &[false, true]) } else { *ch.pick("records", &[false, true]) };
+    let n_ref = cfg.n_ref;
+    let generated = gen_record(ch, &cfg.alphabet, base, n_ref);
+    let g = &generated.rec;
+    let shape = shape_of(g);
+    let describe = || {
+        format!(
+            "header: {} references; file of {} record(s); record: {}",
+            n_ref,
+            if three { 3 } else { 1 },
+            g.render()
+        )
+    };
+    ch.desc(|| format!("base={} {}", base.label, describe()));
+    let v = |stage: &str, field: &str, symptom: &str, expected: String, observed: String| -> Outcome {
+        Err(Violation::new(
+            format!("stage={stage} field={field} shape={shape} symptom={symptom}"),
+            describe(),
+            expected,
+            observed,
+        ))
+    };
+    let header = &cfg.header;
+    let ref_names: Vec<Vec<u8>> = std_gheader(n_ref).refs().into_iter().map(|x| x.0).collect();
+
+    let input = build_record(g);
+    let mut model = g.clone();
+    model.aux = dedup_aux(&g.aux);
+    {
+        let built = view_buf(&input);
+        if built != model {
+            vmc::machinery(format!("harness model and built RecordBuf disagree: {:?}", diff(&model, &built)));
+        }
+    }
+    let es = expect_sam(&model, n_ref);
+    let eb = expect_bam(&model, n_ref);
+    let (na, nb) = neighbours(n_ref);
+    let (ra, rb) = (build_record(&na), build_record(&nb));
+    let (recs, models, ix): (Vec<&dyn sam::alignment::Record>, Vec<GRec>, usize) = if three {
+        (vec![&ra, &input, &rb], vec![na.clone(), model.clone(), nb.clone()], 1)
+    } else {
+        (vec![&input], vec![model.clone()], 0)
+    };
+
+    // ---- (a) SAM write → text is the SAM rendering of x → parse back == x -------------------------
+    let t1 = match write_sam(header, &recs) {
+        Err(e) => {
+            if e.record != Some(ix) {
+                return v("sam-write", "framing", "neighbour-or-header-rejected", "Ok".into(), format!("{}: {}", e.step, e.err));
+            }
+            ch.obs(b"sam-rejected");
+            ch.obs(es.why());
+            if es == Expect::Accept {
+                return v("sam-write", "record", "valid-record-rejected", "Ok (valid SAM record)".into(), format!("Err({})", e.err));
+            }
+            ch.tag("sam writer rejected (outside the SAM data model)");
+            return Ok(());
+        }
+        Ok(t) => t,
+    };
+    let judged = !matches!(es, Expect::Ambiguous(_));
+    if let Expect::Either(why) = es {
+        ch.tag("sam writer accepted a value outside the data model");
+        ch.tag(why);
+    }
+    // independent reading of the text
+    if judged {
+        let (_, lines) = match samtext::split_file(&t1) {
+            Ok(x) => x,
+            Err(e) => return v("text", "layout", "not-sam-text", "header lines then alignment lines".into(), e),
+        };
+        if lines.len() != recs.len() {
+            return v("text", "layout", "record-count", recs.len().to_string(), lines.len().to_string());
+        }
+        for (i, (l, m)) in lines.iter().zip(&models).enumerate() {
+            match samtext::parse_record_line(l, &ref_names) {
+                Err(e) => return v("text", "record", "line-not-parseable-by-spec", "a SAMv1 alignment line".into(), e),
+                Ok(p) => {
+                    if let Some((f, a, b)) = diff(&norm_sam(m), &p) {
+                        return v(if i == ix { "text" } else { "text-neighbour" }, &f, "text-differs-from-value", a, b);
+                    }
+                }
+            }
+        }
+        // '=' is used exactly when the mate reference equals the reference (SAMv1 §1.4 RNEXT)
+        let cols: Vec<&[u8]> = lines[ix].split(|&c| c == b'\t').collect();
+        let same = model.rid.is_some() && model.rid == model.mrid;
+        if (cols[6] == b"=") != same {
+            return v(
+                "text",
+                "rnext",
+                "equals-sign-misused",
+                format!("RNEXT {} '='", if same { "is" } else { "is not" }),
+                String::from_utf8_lossy(cols[6]).into_owned(),
+            );
+        }
+        if same {
+            ch.tag("text: RNEXT '='");
+        }
+    }
+    let (h_s, recs_s) = match read_sam_eager(&t1) {
+        Ok(x) => x,
+        Err(e) => {
+            if !judged {
+                return Ok(());
+            }
+            return v("sam-read", "record", "own-output-unreadable", "Ok".into(), format!("Err({e})"));
+        }
+    };
+    let dec_s: Vec<GRec> = recs_s.iter().map(view_buf).collect();
+    if judged {
+        if let Some((f, a, b)) = diff_lists(&models, &dec_s, norm_sam) {
+            return v("sam-read", &f, "value-differs", a, b);
+        }
+    }
+
+    // ---- (b) fixed point -----------------------------------------------------------------------------
+    match write_sam(&h_s, &dyn_recs(&recs_s)) {
+        Err(e) => return v("fixed-point", "record", "second-write-error", "Ok".into(), format!("{}: {}", e.step, e.err)),
+        Ok(t2) => {
+            if t2 != t1 {
+                let i = t1.iter().zip(&t2).position(|(x, y)| x != y).unwrap_or(t1.len().min(t2.len()));
+                let lo = i.saturating_sub(20);
+                return v(
+                    "fixed-point",
+                    "text",
+                    "second-write-differs",
+                    format!("…{}", esc_full(&t1[lo..(i + 30).min(t1.len())])),
+                    format!("…{}", esc_full(&t2[lo..(i + 30).min(t2.len())])),
+                );
+            }
+        }
+    }
+
+    // ---- (c) SAM ≡ BAM ---------------------------------------------------------------------------------
+    let b1 = match write_bam(header, &recs, Container::Raw) {
+        Err(e) => {
+            ch.obs(b"bam-rejected");
+            if eb == Expect::Accept && e.record == Some(ix) {
+                return v("bam-write", "record", "valid-record-rejected", "Ok".into(), format!("Err({})", e.err));
+            }
+            if e.record != Some(ix) {
+                return v("bam-write", "framing", "neighbour-or-header-rejected", "Ok".into(), format!("{}: {}", e.step, e.err));
+            }
+            ch.tag("bam writer rejected (SAM-only value)");
+            return Ok(());
+        }
+        Ok(b) => b,
+    };
+    let both_valid = es == Expect::Accept && eb == Expect::Accept;
+    let (h_b, recs_b) = match read_bam_eager(&b1, Container::Raw) {
+        Ok(x) => x,
+        Err(e) => {
+            if !both_valid {
+                return Ok(());
+            }
+            return v("bam-read", "record", "own-output-unreadable", "Ok".into(), format!("Err({e})"));
+        }
+    };
+    let dec_b: Vec<GRec> = recs_b.iter().map(view_buf).collect();
+    if judged && !matches!(eb, Expect::Ambiguous(_)) {
+        if let Some((f, a, b)) = diff_lists(&dec_s, &dec_b, norm_both) {
+            return v("sam-vs-bam", &f, "content-differs", format!("SAM: {a}"), format!("BAM: {b}"));
+        }
+        if let Some((w, a, b)) = diff_header(&view_header(&h_s), &view_header(&h_b)) {
+            return v("sam-vs-bam", &format!("header-{w}"), "content-differs", format!("SAM: {a}"), format!("BAM: {b}"));
+        }
+    }
+
+    // ---- (d) conversions by piping a reader into a writer -------------------------------------------
+    // Judged only for records valid in both formats: a value one format cannot carry is allowed to fail.
+    let tolerate = !both_valid;
+    // feature named in pipe-error fingerprints: an empty B array that is not the last field
+    let empty_b_not_last = model.aux.len() > 1
+        && model.aux[..model.aux.len() - 1].iter().any(|(_, x)| {
+            use gsam::GVal::*;
+            match x {
+                BI8(a) => a.is_empty(),
+                BU8(a) => a.is_empty(),
+                BI16(a) => a.is_empty(),
+                BU16(a) => a.is_empty(),
+                BI32(a) => a.is_empty(),
+                BU32(a) => a.is_empty(),
+                BF(a) => a.is_empty(),
+                _ => false,
+            }
+        });
+    macro_rules! step {
+        ($stage:expr, $what:expr, $e:expr) => {
+            match $e {
+                Ok(x) => x,
+                Err(e) => {
+                    if tolerate {
+                        ch.tag("pipe error tolerated (value not valid in both formats)");
+                        return Ok(());
+                    }
+                    let t = e.text();
+                    return v(
+                        $stage,
+                        $what,
+                        &format!("pipe-error err={} emptyB-not-last={empty_b_not_last}", err_class(&t)),
+                        "Ok".into(),
+                        format!("Err({t})"),
+                    );
+                }
+            }
+        };
+    }
+    let mut deferred: Option<Violation> = None;
+    let mut content = |stage: &str, start: &[GRec], end: &[GRec], norm: fn(&GRec) -> GRec| -> Option<Outcome> {
+        if let Some((f, a, b)) = diff_lists(start, end, norm) {
+            let x = v(stage, &f, "content-differs", format!("start: {a}"), format!("end: {b}"));
+            if tolerate {
+                return None;
+            }
+            // a difference confined to the aux list of a >65535-op record is reported after the other pipes ran
+            if f.starts_with("aux") && shape == "ops>65535" {
+                if deferred.is_none() {
+                    deferred = x.err();
+                }
+                return None;
+            }
+            return Some(x);
+        }
+        None
+    };
+    // SAM → BAM → SAM, eager records
+    {
+        let b = step!("pipe-sam-bam-sam", "sam-to-bam", write_bam(&h_s, &dyn_recs(&recs_s), Container::Raw));
+        let (hb, rbs) = step!("pipe-sam-bam-sam", "bam-read", read_bam_eager(&b, Container::Raw));
+        let t3 = step!("pipe-sam-bam-sam", "bam-to-sam", write_sam(&hb, &dyn_recs(&rbs)));
+        let (h3, r3) = step!("pipe-sam-bam-sam", "sam-read", read_sam_eager(&t3));
+        let d3: Vec<GRec> = r3.iter().map(view_buf).collect();
+        if let Some(x) = content("pipe-sam-bam-sam", &dec_s, &d3, norm_both) {
+            return x;
+        }
+        if let Some((w, a, b)) = diff_header(&view_header(&h_s), &view_header(&h3)) {
+            return v("pipe-sam-bam-sam", &format!("header-{w}"), "content-differs", a, b);
+        }
+    }
+    // BAM → SAM → BAM, eager records
+    {
+        let t = step!("pipe-bam-sam-bam", "bam-to-sam", write_sam(&h_b, &dyn_recs(&recs_b)));
+        let (hs, rs) = step!("pipe-bam-sam-bam", "sam-read", read_sam_eager(&t));
+        let b2 = step!("pipe-bam-sam-bam", "sam-to-bam", write_bam(&hs, &dyn_recs(&rs), Container::Raw));
+        let (h2, r2) = step!("pipe-bam-sam-bam", "bam-read", read_bam_eager(&b2, Container::Raw));
+        let d2: Vec<GRec> = r2.iter().map(view_buf).collect();
+        if let Some(x) = content("pipe-bam-sam-bam", &dec_b, &d2, norm_sam) {
+            return x;
+        }
+        if let Some((w, a, b)) = diff_header(&view_header(&h_b), &view_header(&h2)) {
+            return v("pipe-bam-sam-bam", &format!("header-{w}"), "content-differs", a, b);
+        }
+    }
+    // the same conversions with the lazy record types the readers hand out (`records()` iterators)
+    {
+        let (hl, lz) = step!("pipe-lazy-sam-to-bam", "sam-read", read_sam_lazy(&t1));
+        let lzd: Vec<&dyn sam::alignment::Record> = lz.iter().map(|r| r as &dyn sam::alignment::Record).collect();
+        let b = step!("pipe-lazy-sam-to-bam", "sam-to-bam", write_bam(&hl, &lzd, Container::Raw));
+        let (_, rbs) = step!("pipe-lazy-sam-to-bam", "bam-read", read_bam_eager(&b, Container::Raw));
+        let d: Vec<GRec> = rbs.iter().map(view_buf).collect();
+        if let Some(x) = content("pipe-lazy-sam-to-bam", &dec_s, &d, norm_both) {
+            return x;
+        }
+        // and the lazy SAM view itself agrees with the eager parse of the same line
+        match view_lazy(&lz[ix], &hl) {
+            Err((f, m)) => {
+                if !tolerate {
+                    return v("sam-lazy", &f, "accessor-error", "the eagerly parsed value".into(), m);
+                }
+            }
+            Ok(l) => {
+                if let Some((f, a, b)) = diff(&norm_sam(&dec_s[ix]), &norm_sam(&l)) {
+                    if !tolerate {
+                        return v("sam-lazy", &f, "lazy-differs-from-eager", format!("eager: {a}"), format!("lazy: {b}"));
+                    }
+                }
+            }
+        }
+    }
+    {
+        let (hl, lz) = step!("pipe-lazy-bam-to-sam", "bam-read", read_bam_lazy(&b1, Container::Raw));
+        let lzd: Vec<&dyn sam::alignment::Record> = lz.iter().map(|r| r as &dyn sam::alignment::Record).collect();
+        let t = step!("pipe-lazy-bam-to-sam", "bam-to-sam", write_sam(&hl, &lzd));
+        let (_, rs) = step!("pipe-lazy-bam-to-sam", "sam-read", read_sam_eager(&t));
+        let d: Vec<GRec> = rs.iter().map(view_buf).collect();
+        if let Some(x) = content("pipe-lazy-bam-to-sam", &dec_b, &d, norm_sam) {
+            return x;
+        }
+        // BAM → BAM with lazy records (a plain copy loop)
+        let b2 = step!("pipe-lazy-bam-to-bam", "bam-to-bam", write_bam(&hl, &lzd, Container::Raw));
+        match read_bam_eager(&b2, Container::Raw) {
+            Err(e) => {
+                if !tolerate {
+                    let x = v("pipe-lazy-bam-to-bam", "record", "copy-unreadable", "Ok".into(), format!("Err({e})"));
+                    if shape == "ops>65535" {
+                        if deferred.is_none() {
+                            deferred = x.err();
+                        }
+                    } else {
+                        return x;
+                    }
+                }
+            }
+            Ok((_, r2)) => {
+                let d2: Vec<GRec> = r2.iter().map(view_buf).collect();
+                if let Some(x) = content("pipe-lazy-bam-to-bam", &dec_b, &d2, norm_sam) {
+                    return x;
+                }
+            }
+        }
+    }
+
+    // ---- observations ------------------------------------------------------------------------------------
+    ch.obs(b"accepted");
+    ch.obs_hash(&dec_s);
+    ch.obs_hash(t1.len());
+    if model.aux.iter().any(|(_, x)| matches!(x, gsam::GVal::F(_) | gsam::GVal::BF(_))) {
+        ch.tag("record: float aux value");
+    }
+    if model.aux.iter().any(|(_, x)| matches!(x, gsam::GVal::H(_))) {
+        ch.tag("record: hex aux value");
+    }
+    if model.aux.iter().any(|(_, x)| x.type_code().starts_with('B')) {
+        ch.tag("record: array aux value");
+    }
+    if norm_bam(&model).seq != model.seq {
+        ch.tag("record: bases BAM folds (compared modulo folding)");
+    }
+    match shape {
+        "ops>65535" => ch.tag("record: >65535 CIGAR ops"),
+        "ops=65535" => ch.tag("record: exactly 65535 CIGAR ops"),
+        _ => {}
+    }
+    ch.steps(recs.len() as u64 * 14);
+    match deferred {
+        Some(x) => Err(x),
+        None => Ok(()),
+    }
+}
+
+// ------------------------------------------------------------------------------------------------------------
+
+fn header_body(ch: &Chooser, shape: &HeaderShape) -> Outcome {
+    let m = gen_header(ch, shape);
+    let with_record = *ch.pick("record", &[false, true]);
+    let expect = expect_header(&m);
+    let mut t0 = m.to_text();
+    let rec_line: &[u8] = b"q1\t4\t*\t0\t255\t*\t*\t0\t0\tAC\t*\tXA:i:1\n";
+    if with_record {
+        t0.extend_from_slice(rec_line);
+    }
+    let describe = || format!("SAM text: \"{}\"", esc_full(&t0));
+    ch.desc(|| format!("{} [{}]", describe(), expect.why()));
+    let why = expect.why();
+    let v = |stage: &str, what: &str, symptom: &str, expected: String, observed: String| -> Outcome {
+        Err(Violation::new(format!("stage={stage} what={what} symptom={symptom}"), describe(), expected, observed))
+    };
+    let valid = expect == Expect::Accept;
+
+    // parse the generated text
+    let (h, recs0) = match read_sam_eager(&t0) {
+        Ok(x) => x,
+        Err(e) => {
+            ch.obs(b"parse-rejected");
+            ch.obs(why);
+            if valid {
+                return v("parse", "header", "valid-header-rejected", "Ok".into(), format!("Err({e})"));
+            }
+            ch.tag("invalid header rejected by the parser");
+            return Ok(());
+        }
+    };
+    if recs0.len() != with_record as usize {
+        return v("parse", "boundary", "header-record-boundary", format!("{} record(s)", with_record as usize), format!("{}", recs0.len()));
+    }
+    let vh = view_header(&h);
+    if valid {
+        // the value the text denotes
+        if let Some((w, a, b)) = diff_header(&m.canonical(), &vh) {
+            return v("parse", &w, "value-differs-from-text", a, b);
+        }
+        // the same value built through the typed API is the same value
+        match build_header_api(&m) {
+            Err(e) => vmc::machinery(format!("cannot build valid header through the API: {e}")),
+            Ok(api) => {
+                if let Some((w, a, b)) = diff_header(&vh, &view_header(&api)) {
+                    return v("api", &w, "api-built-differs-from-parsed", a, b);
+                }
+                match write_sam(&api, &[]) {
+                    Err(e) => return v("api", "write", "valid-header-rejected", "Ok".into(), format!("{}", e.err)),
+                    Ok(t) => match parse_header_text(&t) {
+                        Err(e) => return v("api", "read", "own-output-unreadable", "Ok".into(), e.to_string()),
+                        Ok(h2) => {
+                            if let Some((w, a, b)) = diff_header(&view_header(&api), &view_header(&h2)) {
+                                return v("api", &w, "value-differs", a, b);
+                            }
+                        }
+                    },
+                }
+            }
+        }
+    }
+
+    // (a) write, read back
+    let t1 = match write_sam(&h, &dyn_recs(&recs0)) {
+        Err(e) => {
+            ch.obs(b"write-rejected");
+            ch.obs(why);
+            if valid {
+                return v("sam-write", "header", "valid-header-rejected", "Ok".into(), format!("{}: {}", e.step, e.err));
+            }
+            ch.tag("invalid header rejected by the SAM writer");
+            return Ok(());
+        }
+        Ok(t) => t,
+    };
+    if !valid {
+        ch.tag("invalid header accepted by parser and writer");
+        ch.tag(why);
+    }
+    // what was written, read independently: same lines, kinds grouped, nothing lost
+    match samtext::split_file(&t1) {
+        Err(e) => return v("text", "layout", "not-sam-text", "header lines".into(), e),
+        Ok((lines, recs)) => {
+            if let Some((w, a, b)) = diff_header(&vh, &lines.canonical()) {
+                return v("text", &w, "text-differs-from-value", a, b);
+            }
+            if recs.len() != recs0.len() {
+                return v("text", "boundary", "record-count", recs0.len().to_string(), recs.len().to_string());
+            }
+        }
+    }
+    let (h1, recs1) = match read_sam_eager(&t1) {
+        Ok(x) => x,
+        Err(e) => return v("sam-read", "header", "own-output-unreadable", "Ok".into(), format!("Err({e})")),
+    };
+    if let Some((w, a, b)) = diff_header(&vh, &view_header(&h1)) {
+        return v("sam-read", &w, "value-differs", a, b);
+    }
+    if recs1.len() != recs0.len() {
+        return v("sam-read", "boundary", "header-record-boundary", recs0.len().to_string(), recs1.len().to_string());
+    }
+    // (b) fixed point
+    match write_sam(&h1, &dyn_recs(&recs1)) {
+        Err(e) => return v("fixed-point", "header", "second-write-error", "Ok".into(), e.err.to_string()),
+        Ok(t2) => {
+            if t2 != t1 {
+                return v("fixed-point", "text", "second-write-differs", esc_full(&t1), esc_full(&t2));
+            }
+        }
+    }
+    // (c) BAM
+    let b1 = match write_bam(&h, &dyn_recs(&recs0), Container::Raw) {
+        Err(e) => {
+            ch.obs(b"bam-write-rejected");
+            if valid {
+                return v("bam-write", "header", "valid-header-rejected", "Ok".into(), format!("{}: {}", e.step, e.err));
+            }
+            ch.tag("invalid header rejected by the BAM writer");
+            return Ok(());
+        }
+        Ok(b) => b,
+    };
+    match rawbam::parse_stream(&b1) {
+        Err(e) => return v("bam-raw", "layout", "stream-malformed", "BAM".into(), e),
+        Ok((rh, _)) => {
+            let want: Vec<(Vec<u8>, i32)> = vh.refs().into_iter().map(|(n, l)| (n, l as i32)).collect();
+            if rh.refs != want {
+                return v("bam-raw", "references", "binary-dictionary-differs", format!("{want:?}"), format!("{:?}", rh.refs));
+            }
+            let mut text = rh.text.clone();
+            while text.last() == Some(&0) {
+                text.pop();
+            }
+            match samtext::split_file(&text) {
+                Err(e) => return v("bam-raw", "text", "not-sam-text", "header lines".into(), e),
+                Ok((lines, _)) => {
+                    if let Some((w, a, b)) = diff_header(&vh, &lines.canonical()) {
+                        return v("bam-raw", &w, "text-differs-from-value", a, b);
+                    }
+                }
+            }
+        }
+    }
+    let (hb, recsb) = match read_bam_eager(&b1, Container::Raw) {
+        Ok(x) => x,
+        Err(e) => return v("bam-read", "header", "own-output-unreadable", "Ok".into(), format!("Err({e})")),
+    };
+    if let Some((w, a, b)) = diff_header(&vh, &view_header(&hb)) {
+        return v("sam-vs-bam", &w, "content-differs", format!("SAM: {a}"), format!("BAM: {b}"));
+    }
+    if recsb.len() != recs0.len() {
+        return v("sam-vs-bam", "boundary", "record-count", recs0.len().to_string(), recsb.len().to_string());
+    }
+    // (d) SAM → BAM → SAM reproduces the decoded content (and, being noodles' own output, the text)
+    match write_sam(&hb, &dyn_recs(&recsb)) {
+        Err(e) => return v("pipe-sam-bam-sam", "header", "pipe-error", "Ok".into(), e.err.to_string()),
+        Ok(t3) => match read_sam_eager(&t3) {
+            Err(e) => return v("pipe-sam-bam-sam", "header", "pipe-error", "Ok".into(), e.to_string()),
+            Ok((h3, _)) => {
+                if let Some((w, a, b)) = diff_header(&vh, &view_header(&h3)) {
+                    return v("pipe-sam-bam-sam", &w, "content-differs", a, b);
+                }
+                // BAM → SAM → BAM
+                match write_bam(&h3, &[], Container::Raw).map_err(|e| e.err).and_then(|b| read_bam_eager(&b, Container::Raw)) {
+                    Err(e) => return v("pipe-bam-sam-bam", "header", "pipe-error", "Ok".into(), e.to_string()),
+                    Ok((h4, _)) => {
+                        if let Some((w, a, b)) = diff_header(&view_header(&hb), &view_header(&h4)) {
+                            return v("pipe-bam-sam-bam", &w, "content-differs", a, b);
+                        }
+                    }
+                }
+            }
+        },
+    }
+
+    ch.obs(b"accepted");
+    ch.obs_hash(&vh);
+    let kinds: Vec<[u8; 2]> = m.lines.iter().map(|l| l.kind()).collect();
+    let mut sorted = kinds.clone();
+    sorted.sort_by_key(|k| [b"HD", b"SQ", b"RG", b"PG", b"CO"].iter().position(|x| *x == k));
+    if kinds != sorted {
+        ch.tag("text: record kinds interleaved (first write canonicalises)");
+    }
+    if vh.refs().is_empty() {
+        ch.tag("header: no references");
+    }
+    if vh.refs().iter().any(|(_, l)| *l == (1 << 31) - 1) {
+        ch.tag("header: LN 2^31-1");
+    }
+    if m.lines.iter().any(|l| matches!(l, gsam::GLine::Co(c) if c.is_empty())) {
+        ch.tag("header: empty comment");
+    }
+    if m.lines.iter().any(|l| matches!(l, gsam::GLine::Co(c) if c.contains(&b'\t'))) {
+        ch.tag("header: comment with tab");
+    }
+    if m.lines.iter().any(|l| l.get(b"PP").is_some()) {
+        ch.tag("header: PG chain (PP)");
+    }
+    ch.steps(10);
+    Ok(())
+}
+
+fn main() {
+    unsafe {
+        libc::mallopt(libc::M_MMAP_THRESHOLD, 32 << 20);
+        libc::mallopt(libc::M_TRIM_THRESHOLD, i32::MAX);
+        libc::mallopt(libc::M_TOP_PAD, 64 << 20);
+    }
+    vmc::run("C06", "model_checking", |ctx| {
+        ctx.rule(
+            "records: every record within k field deviations of each of 4 base records over the SAM-carriable grammar \
+             (incl. '=' mate reference, '*' fields, floats, B arrays, hex, full printable range), in files of 1 and 3 records; \
+             headers: 0..3 @SQ x 0..2 @RG x 0..3 @PG x 0..2 @CO (free) with every line k deviations from its default over \
+             standard/user tags, LN bounds, tag orders, line orders and invalid shapes, with/without a following record; \
+             distinct = distinct decoded contents observed",
+        );
+        ctx.assume("Rust's str::parse::<f32>/<i64> (independent reading of the text noodles writes)");
+        ctx.assume("RecordBuf setters/constructors store the given field values (checked per execution by viewing the built record)");
+        let mk = |wide: bool, heavy: bool, nrec_free: bool| Cfg {
+            alphabet: Alphabet::sam(wide, heavy),
+            bases: bases(),
+            n_ref: 3,
+            header: std_header(3),
+            nrec_free,
+        };
+        let _: Option<GHeader> = None;
+        if ctx.quick() {
+            let cfg = mk(false, true, false);
+            ctx.harness(Config::new("sam_record_k2", 2), |ch| record_body(ch, &cfg));
+            let shape = HeaderShape::quick();
+            ctx.harness(Config::new("sam_header_k2", 2), |ch| header_body(ch, &shape));
+        } else {
+            let light = mk(true, false, false);
+            ctx.harness(Config::new("sam_record_k3", 3), |ch| record_body(ch, &light));
+            let heavy = mk(true, true, true);
+            ctx.harness(Config::new("sam_record_k2_wide", 2), |ch| record_body(ch, &heavy));
+            let shape = HeaderShape::thorough();
+            ctx.harness(Config::new("sam_header_k3", 3), |ch| header_body(ch, &shape));
+        }
+    });
+}
